@@ -44,9 +44,37 @@ def anchors():
 
 
 def remember(tree, ref, word):
-    if len(TREES) > 2000:
+    """a validated tree: the root and every inner variable node (with its own yield) become known, so that a
+    derivation listing asked of any of them can be judged"""
+    if len(TREES) > 4000:
         TREES.clear()
     TREES[id(tree)] = (tree, ref, tuple(word))
+    from pyformlang.cfg import Variable, Terminal
+    todo = [tree]
+    n = 0
+    while todo and n < 60:
+        x = todo.pop()
+        n += 1
+        for s_ in x.sons:
+            if isinstance(s_.value, Variable) and id(s_) not in TREES:
+                TREES[id(s_)] = (s_, ref, tuple(leaves_of(s_)))
+            todo.append(s_)
+
+
+def leaves_of(node):
+    from pyformlang.cfg import Variable
+    out = []
+    todo = [node]
+    n = 0
+    while todo and n < 500:
+        x = todo.pop()
+        n += 1
+        if not x.sons:
+            if not isinstance(x.value, Variable):
+                out.append(x.value.value)
+        else:
+            todo.extend(reversed(x.sons))
+    return out
 
 
 def grammar_tags(ref):
@@ -272,7 +300,12 @@ def make_post_deriv(leftmost):
         if exc is not None:
             core.report(PROP, name, "exception:" + type(exc).__name__, {"word": list(w)}, tags)
             return
-        err = validate_derivation(result, ref, node_sym(tree.value), w, leftmost)
+        sub_ref = ref
+        if node_sym(tree.value) != ("V", ref.start):
+            # an inner node: its sub-tree derives its own yield from its own symbol
+            from vf.ref.cfg import Grammar
+            sub_ref = Grammar(ref.prods, tree.value.value)
+        err = validate_derivation(result, sub_ref, node_sym(tree.value), w, leftmost)
         if err:
             core.report(PROP, name, err, {"word": list(w), "derivation": repr(result)[:300]}, tags)
     return post
@@ -316,8 +349,13 @@ def plan(tier, rng, sl, nslices, stats):
             yield dict(gcfg.random_case(rng, max_vars=3, max_terms=2, max_prods=6, max_body=3, vcs=["str", "lower", "int"]),
                        parsers=["cnf", "rd"] if r == 2 else ["cnf", "ll1"])
     from vf.props import c18
+    from vf.props.c14 import nullable_body_case, nullable_tail_case
+    for i in range(cfg["random"] // 6):
+        yield dict(nullable_tail_case(rng), parsers=["cnf", "ll1"])
     for i in range(cfg["random"] // 5):
-        yield c18.rand_fcfg(rng)
+        yield c18.rand_fcfg(rng) if i % 3 else c18.epsilon_fcfg(rng)
+    for i in range(cfg["random"] // 6):
+        yield dict(nullable_body_case(rng), parsers=["cnf", "ll1"])
     if cfg.get("exhaustive"):
         tot = 0
         for i, c in enumerate(gcfg.exhaustive_cases(3)):
@@ -348,6 +386,13 @@ def run_fcfg(c, stats):
             if ok:
                 trees.append(t)
         for t in trees[:20]:
+            call(t.get_leftmost_derivation)
+            call(t.get_rightmost_derivation)
+        for t in trees[:8]:
+            inner = [s_ for s_ in t.sons] + [g_ for s_ in t.sons for g_ in s_.sons]
+            for s_ in inner[:6]:
+                call(s_.get_leftmost_derivation)
+                call(s_.get_rightmost_derivation)
             call(t.get_leftmost_derivation)
             call(t.get_rightmost_derivation)
     return bool(trees)
@@ -401,6 +446,14 @@ def run_case(c, stats):
                     if ok:
                         trees.append(t)
     for t in trees[:40]:
+        call(t.get_leftmost_derivation)
+        call(t.get_rightmost_derivation)
+    for t in trees[:12]:
+        # the listing is asked again, of inner nodes (first and non-first sons) and of the root once more
+        inner = [s_ for s_ in t.sons] + [g_ for s_ in t.sons for g_ in s_.sons]
+        for s_ in inner[:6]:
+            call(s_.get_leftmost_derivation)
+            call(s_.get_rightmost_derivation)
         call(t.get_leftmost_derivation)
         call(t.get_rightmost_derivation)
     return len(ref.prods) >= 2 and any(len(w) >= 2 for w in L)
